@@ -6,6 +6,7 @@ import Fx.Eval
 import Fx.Xdr
 import Fx.Lemmas.Runtime
 import Fx.Props.C10
+import Fx.Lemmas.Selects
 namespace Fx.C06
 open Fx
 
@@ -51,5 +52,32 @@ theorem C06_utf8 (max : Option Nat) (bs s : List Byte) (hl : bs.length < 2^32)
   have hlen : ¬ (bs ++ zeros (padLen bs.length) ++ s).length < bs.length + padLen bs.length := by simp
   simp only [hm, Bool.false_eq_true, if_false, hlen]
   simp [List.append_assoc]
+
+/-- **C06 (the match selects the declared arm).**  For every supported specification, every union of it and every
+    discriminant word `d` its switch type admits: the emitted discriminant decoder reads `d`, and the emitted arm list
+    (data arms in declaration order, then void arms, then the tail) selects exactly the arm the specification declares
+    for `d` (`selectDeclared`: the labels denoting `d`, by numeral, constant, enum member or TRUE/FALSE; the default
+    arm only when no label denotes `d`; nothing — and then the tail is `Err(UnknownVariant)` — when there is no default). -/
+theorem C06_match_selects (a : Ast) (m : Module) (hs : Supported a = true) (hg : generateModule a = .ok m) :
+    MatchSelects a m.plans :=
+  match_selects_of_supported hs hg
+
+/-- run through the whole decoder: a discriminant no arm declares is `Err(UnknownVariant(d as i32))`, whatever follows it -/
+theorem C06_undeclared_rejected (a : Ast) (m : Module) (hs : Supported a = true) (hg : generateModule a = .ok m)
+    (n : String) (u : Union) (hb : bget n a.types = some (.union u))
+    (d : Nat) (hd : discOk a (discKind a u.switch.varType) d = true) (hno : selectDeclared a u d = .noArm)
+    (fuel off : Nat) (s : List Byte) (l : List Ev) :
+    ∃ l', evalImpl a m.plans (fuel + 3) n ⟨off, be32 d ++ s, l⟩ = .err (.unknownVariant (asI32 a (scrutOf a u d))) l' := by
+  have F := sfacts_of_supported hs
+  obtain ⟨_, _, h2, _⟩ := generateModule_ok hg
+  obtain ⟨i, hi, hemit⟩ := find_impl_of_types a a.types m.fromRefMut h2 F.keys n _ hb
+  have hfi : m.plans.findImpl n = some i := by simp only [Module.plans, Plans.findImpl]; exact hi
+  simp only [emitImpl] at hemit
+  obtain ⟨ud, _, hemit⟩ := G.bind_eq_ok hemit
+  cases hemit
+  obtain ⟨hdisc, hsel⟩ := match_selects_of_supported hs hg n u _ ud hb hfi rfl d hd
+  simp only [hno] at hsel
+  obtain ⟨l', e⟩ := hdisc fuel off s l
+  exact ⟨l', by simp [evalImpl, hfi, e, hsel.1, hsel.2]⟩
 
 end Fx.C06
